@@ -1,1 +1,3 @@
 pub mod core;
+pub mod shrink;
+pub mod tycheck;
